@@ -36,11 +36,15 @@ EXTENDS Integers, Sequences, FiniteSets, TLC, Json
 CONSTANTS MaxH, MaxD,   \* MAX = MaxH*H + MaxD   ([2,1] symbolic, [0,19] small)
           MaxSize,      \* selection nodes per operation
           MaxCustom,    \* 0..2: how many slots get an individually chosen cost function
-          Corpus,       \* "gen": all trees up to MaxSize; "grid": the safeAdd boundary-grid operations
+          Corpus,       \* "gen": all trees up to MaxSize; "grid": the safeAdd boundary-grid operations;
+                        \* "frag": one named fragment spread several times; "hist": see ComplexityGate;
+                        \* "bind": operations through GraphQL fields that SHARE one ComplexityRoot entry
+                        \*         + the Complexity(type, field) table of the whole schema
           Emit          \* print (input, outcome) pairs
 
-VARIABLES pc, tree, asg, out
-vars == <<pc, tree, asg, out>>
+VARIABLES pc, tree, asg, out,
+          bnd           \* the binding: bnd[T][f] = the ComplexityRoot entry that serves the GraphQL field T.f
+vars == <<pc, tree, asg, out, bnd>>
 
 (***************************************************************************)
 (* Numbers                                                                 *)
@@ -114,13 +118,34 @@ ASSUME SAddTheorems
 (* `possible` of an interface lists what GetPossibleTypes returns: objects *)
 (* AND interfaces implementing it (Named); an interface implementor can    *)
 (* carry no custom cost function, so it always contributes the default.    *)
+(*                                                                         *)
+(* BINDING.  A custom cost function is not configured per GraphQL field    *)
+(* but per ENTRY of the generated ComplexityRoot, and gqlgen makes one      *)
+(* entry per Go field / method an object's GraphQL fields are bound to.     *)
+(* A field record says which entry serves the field:                        *)
+(*   bind = ""  : its own entry (named after the field)                     *)
+(*   bind = "X" : the entry X of its type, shared with every other field    *)
+(*                of the type that says X                                   *)
+(*   how        : why - "yml" (gqlgen.yml models.T.fields.f.fieldName),     *)
+(*                "gofield" (@goField(name:)), "collapse" (new_foo/newFoo   *)
+(*                are one Go name), "natural" (the field whose own name is  *)
+(*                X), "resolver" (a resolver-backed field whose Go name is  *)
+(*                X), "resolver-own" (resolver-backed WITH a name mapping:  *)
+(*                gqlgen ignores the mapping, the field keeps its own entry)*)
+(*   ord        : position among the fields of its entry in declaration     *)
+(*                order (1 = declared first)                                *)
+(* Type Sh is the object with shared entries (probe: c.graphqls, extra.yml, *)
+(* shmodel.go.in): Products = {products, items, stock} (a Go method with an *)
+(* argument), Foo = {oneFoo, twoFoo} (a struct field), NewFoo = {new_foo,   *)
+(* newFoo}, NewBar = {legacyBar, newBar (resolver-backed), new_bar}.        *)
 (***************************************************************************)
-F(t, a) == [type |-> t, arg |-> a]
+FB(t, a, b, h, o) == [type |-> t, arg |-> a, bind |-> b, how |-> h, ord |-> o]
+F(t, a) == FB(t, a, "", "", 1)
 NoFields == [x \in {} |-> F("", FALSE)]
 Schema == [
   Query |-> [kind |-> "OBJECT", impl |-> <<>>, possible |-> <<>>,
              fields |-> [a |-> F("A", FALSE), node |-> F("Node", FALSE), u |-> F("U", FALSE),
-                         s |-> F("String", FALSE), withArgs |-> F("String", TRUE)]],
+                         s |-> F("String", FALSE), withArgs |-> F("String", TRUE), sh |-> F("Sh", FALSE)]],
   Node  |-> [kind |-> "INTERFACE", impl |-> <<>>, possible |-> <<"Named", "A", "B">>,
              fields |-> [id |-> F("ID", FALSE), name |-> F("String", FALSE)]],
   Named |-> [kind |-> "INTERFACE", impl |-> <<"Node">>, possible |-> <<"A">>,
@@ -131,21 +156,64 @@ Schema == [
                          b |-> F("B", FALSE), arg |-> F("String", TRUE)]],
   B     |-> [kind |-> "OBJECT", impl |-> <<"Node">>, possible |-> <<>>,
              fields |-> [id |-> F("ID", FALSE), name |-> F("String", FALSE), a |-> F("A", FALSE)]],
-  U     |-> [kind |-> "UNION", impl |-> <<>>, possible |-> <<"A", "B">>, fields |-> NoFields]
+  U     |-> [kind |-> "UNION", impl |-> <<>>, possible |-> <<"A", "B">>, fields |-> NoFields],
+  Sh    |-> [kind |-> "OBJECT", impl |-> <<>>, possible |-> <<>>,
+             fields |-> [id        |-> F("ID", FALSE),
+                         products  |-> FB("It", TRUE, "Products", "natural", 1),
+                         items     |-> FB("It", TRUE, "Products", "yml", 2),
+                         stock     |-> FB("It", TRUE, "Products", "yml", 3),
+                         oneFoo    |-> FB("String", FALSE, "Foo", "gofield", 1),
+                         twoFoo    |-> FB("String", FALSE, "Foo", "gofield", 2),
+                         oldFoo    |-> FB("String", FALSE, "", "resolver-own", 1),
+                         new_foo   |-> FB("String", FALSE, "NewFoo", "collapse", 1),
+                         newFoo    |-> FB("String", FALSE, "NewFoo", "natural", 2),
+                         legacyBar |-> FB("It", TRUE, "NewBar", "yml", 1),
+                         newBar    |-> FB("It", TRUE, "NewBar", "resolver", 2),
+                         new_bar   |-> FB("It", TRUE, "NewBar", "collapse", 3)]],
+  It    |-> [kind |-> "OBJECT", impl |-> <<>>, possible |-> <<>>,
+             fields |-> [id |-> F("ID", FALSE), name |-> F("String", FALSE)]]
 ]
 IsComposite(t) == t \in DOMAIN Schema
 Range(s) == {s[i] : i \in 1..Len(s)}
+SlotName(t, f) == t \o "." \o f
+ObjTypes == {t \in DOMAIN Schema : Schema[t].kind = "OBJECT"}
+\* the entry (key of a cost-function assignment) that serves T.f, as the schema + generator configuration say
+EntryName(t, f) == LET b == Schema[t].fields[f].bind IN IF b = "" THEN SlotName(t, f) ELSE SlotName(t, b)
+Binding == [t \in ObjTypes |-> [f \in DOMAIN Schema[t].fields |-> EntryName(t, f)]]
+\* the GraphQL fields of T served by the same entry as T.f, and the one declared after f (cyclic)
+GroupOf(t, f) == {g \in DOMAIN Schema[t].fields : Binding[t][g] = Binding[t][f]}
+NextInGroup(t, f) ==
+  LET G == GroupOf(t, f)
+      o == Schema[t].fields[f].ord
+  IN  CHOOSE g \in G : Schema[t].fields[g].ord = (o % Cardinality(G)) + 1
+\* well-formedness of the binding (a generator configuration gqlgen accepts): the fields of one entry
+\* have one result type and one argument signature (the ComplexityRoot function has ONE signature),
+\* are numbered 1..n in declaration order, and an unshared field is its own group
+BindingWF ==
+  \A t \in ObjTypes : \A f \in DOMAIN Schema[t].fields :
+     LET G == GroupOf(t, f) IN
+       /\ \A g \in G : /\ Schema[t].fields[g].type = Schema[t].fields[f].type
+                       /\ Schema[t].fields[g].arg = Schema[t].fields[f].arg
+       /\ {Schema[t].fields[g].ord : g \in G} = 1..Cardinality(G)
+       /\ (Schema[t].fields[f].bind = "" => G = {f})
+ASSUME BindingWF
 Meta == {"__typename", "__schema"}
 ArgVal == 3      \* the value of argument x when it is set (how it is delivered - literal, variable,
                  \* variable default - is chosen by the concretiser; the cost function sees the value)
+BigArg == 100    \* a large argument value (ax = "big"; only through request variables, ComplexityGate)
 
 (***************************************************************************)
 (* Selections.  [k, name, on, ax, sels]:                                   *)
-(*   k = "field":  name, ax in {"none","set"} (argument x), sels           *)
+(*   k = "field":  name, ax in {"none","set","big"} (argument x), or        *)
+(*                 "var" = the request variable $n (ComplexityGate binds   *)
+(*                 it per request), sels                                   *)
 (*   k = "inline": on = type condition ("" = none), sels                   *)
 (*   k = "spread": a spread of a named fragment `on on { sels }`; the      *)
 (*                 definition is carried in place, the renderer hoists it  *)
-(*                 (equal definitions become one fragment spread twice)    *)
+(*                 (EQUAL definitions are ONE named fragment spread         *)
+(*                 several times - corpus "frag"; every spread contributes *)
+(*                 the fragment's selections again, also when the same     *)
+(*                 fragment is spread twice in one selection set)          *)
 (***************************************************************************)
 Fld(name, ax, sels) == [k |-> "field", name |-> name, on |-> "", ax |-> ax, sels |-> sels]
 Frag(k, on, sels)   == [k |-> k, name |-> "", on |-> on, ax |-> "none", sels |-> sels]
@@ -197,7 +265,48 @@ GridTrees == {
   << Fld("node", "none", <<L("id")>>) >>,                                      \* interface max
   << Fld("node", "none", <<L("id"), Frag("inline", "B", <<L("id")>>)>>) >>     \* max, then sum
 }
-Trees == IF Corpus = "grid" THEN GridTrees ELSE GenTrees
+\* One named fragment (on A) spread several times: under sibling fields, under fields of different
+\* parent types, nested, twice in the same selection set, directly and inside another fragment, below
+\* an inline fragment and a nested field, three times; and a fragment on Query spread twice at the root.
+SpA(body) == Frag("spread", "A", body)
+FragBodies == { <<L("id")>>,
+                <<L("id"), Fld("kid", "none", <<L("id")>>)>>,
+                <<Fld("arg", "set", <<>>)>>,
+                <<L("tag"), SpA(<<L("id")>>)>> }                  \* a fragment that spreads another fragment
+FragCtx(b) ==
+  LET H == SpA(b) IN
+  { << Fld("a", "none", <<H>>), Fld("a", "none", <<H>>) >>,
+    << Fld("a", "none", <<H>>), Fld("node", "none", <<H>>) >>,
+    << Fld("a", "none", <<H, Fld("kid", "none", <<H>>)>>) >>,
+    << Fld("a", "none", <<H, H>>) >>,
+    << Fld("a", "none", <<H, SpA(<<L("name"), H>>)>>) >>,
+    << Fld("u", "none", <<Frag("inline", "A", <<H>>)>>), Fld("a", "none", <<Fld("kid", "none", <<H>>)>>) >>,
+    << Fld("a", "none", <<H>>), Fld("a", "none", <<H>>), Fld("node", "none", <<H>>) >> }
+QFrag == Frag("spread", "Query", <<Fld("a", "none", <<L("id")>>)>>)
+FragTrees == UNION {FragCtx(b) : b \in FragBodies} \cup { <<QFrag, QFrag>>, <<QFrag, L("s"), QFrag>> }
+
+\* Operations through the fields of Sh that share a ComplexityRoot entry.  K(g, ax) selects the It-typed
+\* field g with its argument x absent / set; every member of every group occurs alone (so also the one
+\* declared second / last is the ONLY way the entry is reached), two members of one group side by side,
+\* below one named fragment that is spread twice, and two groups side by side.
+ShItFields  == {"products", "items", "stock", "legacyBar", "newBar", "new_bar"}
+ShStrFields == {"oneFoo", "twoFoo", "oldFoo", "new_foo", "newFoo"}
+K(g, ax) == Fld(g, ax, <<L("id")>>)
+InSh(ss) == Fld("sh", "none", ss)
+SpSh(ss) == Frag("spread", "Sh", ss)
+BindTrees ==
+       { <<InSh(<<K(g, ax)>>)>> : g \in ShItFields, ax \in {"none", "set"} }
+  \cup { <<InSh(<<K(g, "none"), K(NextInGroup("Sh", g), "set")>>)>> : g \in ShItFields }
+  \cup { <<InSh(<<SpSh(<<K(g, "set")>>)>>), InSh(<<SpSh(<<K(g, "set")>>)>>)>> : g \in ShItFields }
+  \cup { <<InSh(<<K("items", "set"), K("new_bar", "none")>>)>> }
+  \cup { <<InSh(<<L(h)>>)>> : h \in ShStrFields }
+  \cup { <<InSh(<<L(h), L(NextInGroup("Sh", h))>>)>> : h \in {"oneFoo", "new_foo"} }
+  \cup { <<InSh(<<L("twoFoo"), L("oldFoo")>>)>> }
+  \cup { <<InSh(<<SpSh(<<L(h)>>), L("id"), SpSh(<<L(h)>>)>>)>> : h \in ShStrFields }
+\* "no operation": the case that carries the Complexity(type, field) table of the whole schema
+NoOp == <<>>
+Trees == IF Corpus = "grid" THEN GridTrees ELSE IF Corpus = "frag" THEN FragTrees
+         ELSE IF Corpus = "bind" THEN BindTrees \cup {NoOp} ELSE GenTrees
 
 (***************************************************************************)
 (* Custom cost functions (user code: they compute on machine ints and      *)
@@ -211,34 +320,40 @@ ApplyCost(fn, child, x) ==
     [] fn.k = "mul"   -> NClampHi(NTimes(child, fn.m))      \* child * k
     [] fn.k = "sub"   -> NPlus(child, N(0, 0 - fn.c.d))     \* child - c: a value BELOW the children's cost
     [] fn.k = "arg"   -> NClampHi(NPlus(child, N(0, x)))    \* child + (value of argument x, 0 if absent)
+    [] fn.k = "argmul" -> NClampHi(NTimes(NPlus(child, One), x))  \* x * (1 + child): a list of x elements
 
 MaxM1 == NPlus(MAXN, N(0, -1))
 ConstSet == {Zero, N(0, 2), N(0, -1), Half, NPlus(Half, One), MaxM1, MAXN}
 AddSet   == {Zero, N(0, 2), MaxM1}
 BaseFamily == {Fn("const", c, 0) : c \in ConstSet} \cup {Fn("add", c, 0) : c \in AddSet}
               \cup {Fn("mul", Zero, 2), Fn("sub", One, 0)}
+FragFamily == {Fn("const", Zero, 0), Fn("const", N(0, 2), 0), Fn("const", N(0, -1), 0), Fn("add", N(0, 2), 0),
+               Fn("mul", Zero, 2), Fn("mul", Zero, 3)}
+BindFamily == {Fn("const", Zero, 0), Fn("const", N(0, 2), 0), Fn("add", N(0, 2), 0), Fn("mul", Zero, 3)}
 GridConsts == SGrid
 GridFamily == {Fn("const", c, 0) : c \in GridConsts}
 
-SlotName(t, f) == t \o "." \o f
 ObjPossible(tn) == {q \in Range(Schema[tn].possible) : Schema[q].kind = "OBJECT"}
 
 RECURSIVE Slots(_, _, _)
-\* [slot, arg]: the Type.field keys a user could define a cost function for in this operation
+\* [slot, arg]: the ComplexityRoot entries a user could define a cost function for in this operation
+\* (the entry bnd[T][f] that serves a selected field T.f - two selected fields may name the same entry)
 Slots(tn, sels, i) ==
   IF i > Len(sels) THEN {}
   ELSE LET s == sels[i] IN
        (IF s.k = "field" THEN
           (IF s.name \in Meta THEN {}
            ELSE LET fd  == Schema[tn].fields[s.name]
-                    own == IF Schema[tn].kind = "OBJECT" THEN {[slot |-> SlotName(tn, s.name), arg |-> fd.arg]}
-                           ELSE {[slot |-> SlotName(p, s.name), arg |-> fd.arg] : p \in ObjPossible(tn)}
+                    own == IF Schema[tn].kind = "OBJECT" THEN {[slot |-> bnd[tn][s.name], arg |-> fd.arg]}
+                           ELSE {[slot |-> bnd[p][s.name], arg |-> fd.arg] : p \in ObjPossible(tn)}
                 IN  own \cup (IF IsComposite(fd.type) THEN Slots(fd.type, s.sels, 1) ELSE {}))
         ELSE Slots(OnType(tn, s), s.sels, 1))
        \cup Slots(tn, sels, i + 1)
 
 FamilyOf(sl) ==
   IF Corpus = "grid" THEN GridFamily
+  ELSE IF Corpus = "frag" THEN FragFamily \cup (IF sl.arg THEN {Fn("arg", Zero, 0)} ELSE {})
+  ELSE IF Corpus = "bind" THEN BindFamily \cup (IF sl.arg THEN {Fn("arg", Zero, 0), Fn("argmul", Zero, 0)} ELSE {})
   ELSE BaseFamily \cup (IF sl.arg THEN {Fn("arg", Zero, 0)} ELSE {})
 
 PairAsgs(E, k) ==
@@ -248,27 +363,46 @@ PairAsgs(E, k) ==
 
 EntriesOf(S) == UNION {{[slot |-> sl.slot, fn |-> f] : f \in FamilyOf(sl)} : sl \in S}
 GridRoots == {"Query.a", "Query.node"}   \* in the grid corpus these are the identity (child + 0) or undefined
+\* the table case: every entry of the schema alone with a constant, child + 2 and (if the field takes the
+\* argument) child + x, and all entries at once
+AllEntries == UNION {{[slot |-> Binding[t][f], arg |-> Schema[t].fields[f].arg] : f \in DOMAIN Schema[t].fields} : t \in ObjTypes}
+TableAsgs ==
+  {{[slot |-> e.slot, fn |-> f]} : e \in AllEntries, f \in {Fn("const", N(0, 2), 0), Fn("add", N(0, 2), 0)}}
+  \cup {{[slot |-> e.slot, fn |-> Fn("arg", Zero, 0)]} : e \in {x \in AllEntries : x.arg}}
+  \cup {{[slot |-> e.slot, fn |-> Fn("const", N(0, 7), 0)] : e \in AllEntries}}
+  \cup {{}}
 Asgs(t) ==
   LET S == Slots("Query", t, 1) IN
-  IF Corpus = "grid"
+  IF Corpus = "bind" /\ t = NoOp THEN TableAsgs
+  ELSE IF Corpus = "grid"
   THEN LET SL == {sl \in S : sl.slot \notin GridRoots}
            SR == {sl \in S : sl.slot \in GridRoots}
            R  == {{}} \cup {{[slot |-> sl.slot, fn |-> Fn("add", Zero, 0)] : sl \in SR}}
        IN  {l \cup r : l \in PairAsgs(EntriesOf(SL), 2), r \in R}
   ELSE PairAsgs(EntriesOf(S), MaxCustom)
        \* every slot the same function (saturation everywhere, all negative, ...)
-       \cup {{[slot |-> sl.slot, fn |-> f] : sl \in S} : f \in BaseFamily}
+       \cup {{[slot |-> sl.slot, fn |-> f] : sl \in S} : f \in IF Corpus = "frag" THEN FragFamily
+                                                              ELSE IF Corpus = "bind" THEN BindFamily ELSE BaseFamily}
 
 CostFn(a, slot) == IF \E e \in a : e.slot = slot THEN (CHOOSE e \in a : e.slot = slot).fn ELSE NoneFn
 
 (***************************************************************************)
 (* Cx: the documented definition.                                          *)
 (***************************************************************************)
-ArgOf(s) == IF s.ax = "set" THEN ArgVal ELSE 0
+ArgOfClass(c) == IF c = "set" THEN ArgVal ELSE IF c = "big" THEN BigArg ELSE 0
+ArgOf(s) == ArgOfClass(s.ax)
+
+\* What the generated ExecutableSchema.Complexity(typeName, field, child, args) answers: the value of the
+\* function configured on the ENTRY that serves the GraphQL field T.f - for EVERY field the entry serves -
+\* and "no custom cost" (ok = FALSE) when that entry has no function.  Only object types have entries.
+CustomOf(a, t, f) == IF t \in DOMAIN bnd /\ f \in DOMAIN bnd[t] THEN CostFn(a, bnd[t][f]) ELSE NoneFn
+GenComplexity(a, t, f, child, x) ==
+  LET fn == CustomOf(a, t, f) IN
+  IF fn.k = "none" THEN [ok |-> FALSE, v |-> Zero] ELSE [ok |-> TRUE, v |-> ApplyCost(fn, child, x)]
 
 \* the field rule for one concrete type
 FieldCost(a, t, f, child, x) ==
-  LET fn == CostFn(a, SlotName(t, f)) IN
+  LET fn == CustomOf(a, t, f) IN
   IF fn.k # "none" /\ NLe(child, ApplyCost(fn, child, x))
   THEN ApplyCost(fn, child, x)
   ELSE SAdd(One, child)
@@ -346,14 +480,46 @@ ChildrenOK(a, tn, sels, i) ==
         ELSE ChildrenOK(a, OnType(tn, s), s.sels, 1))
     /\ ChildrenOK(a, tn, sels, i + 1)
 
+RECURSIVE SwapAlias(_, _)
+\* every selected field of an object type is replaced by the field declared next among the fields that
+\* share its ComplexityRoot entry (an unshared field is its own successor); BindingWF makes the result a
+\* well-typed operation with the same arguments
+SwapAlias(tn, sels) ==
+  IF sels = <<>> THEN <<>>
+  ELSE LET s == Head(sels)
+           s2 == IF s.k = "field"
+                 THEN (IF s.name \in Meta THEN s
+                       ELSE LET rt == Schema[tn].fields[s.name].type
+                                n2 == IF tn \in ObjTypes THEN NextInGroup(tn, s.name) ELSE s.name
+                            IN  [s EXCEPT !.name = n2, !.sels = IF IsComposite(rt) THEN SwapAlias(rt, @) ELSE @])
+                 ELSE [s EXCEPT !.sels = SwapAlias(OnType(tn, s), @)]
+       IN  <<s2>> \o SwapAlias(tn, Tail(sels))
+
+TableChildren == {Zero, N(0, 4)}
 Done == pc = "done"
+\* THE BINDING THEOREM.  For EVERY GraphQL field T.f of every object type: Complexity(T, f) reports a custom
+\* cost exactly when a function is configured on the entry that serves T.f, it is that function's value,
+\* and all fields served by one entry get the same answer (declared first, second or last).
+TBinding == Done => \A t \in ObjTypes : \A f \in DOMAIN Schema[t].fields : \A ch \in TableChildren :
+               LET r == GenComplexity(asg, t, f, ch, ArgVal) IN
+                 /\ r.ok <=> (\E e \in asg : e.slot = bnd[t][f])
+                 /\ r.ok => r.v = ApplyCost((CHOOSE e \in asg : e.slot = bnd[t][f]).fn, ch, ArgVal)
+                 /\ \A g \in GroupOf(t, f) : GenComplexity(asg, t, g, ch, ArgVal) = r
+TBindState == bnd = Binding
+\* ... so an operation costs the same through any field of a group: renaming every selected field to the
+\* next field of its group changes nothing
+TAlias    == Done => Cx(asg, SwapAlias("Query", tree)) = out.cx
 TRange    == Done => NLe(Zero, out.cx) /\ NLe(out.cx, MAXN)
 TDSmall   == Done => out.cx.d \in -100..100 /\ out.cx.h \in 0..MaxH
 TChildren == Done => ChildrenOK(asg, "Query", tree, 1)
 \* every cost function of the family is monotone in the children's cost
 TMonotone == Done => \A t2 \in Dels(tree) : NLe(Cx(asg, t2), out.cx)
 TPerm     == Done => Cx(asg, DeepRev(tree)) = out.cx
+\* a fragment spread contributes the fragment's selections at EVERY spread: expanding each spread in
+\* place (SwapFrag turns every spread into the inline fragment with the same selections) changes nothing
 TFragment == Done => Cx(asg, SwapFrag(tree)) = out.cx
+\* ... so selecting everything twice (every named fragment is then spread twice as often) costs twice
+TDouble   == Done => Cx(asg, tree \o tree) = SAdd(out.cx, out.cx)
 TGate     == Done => \A g \in out.gate :
                         /\ g.rej <=> NLt(g.lim, out.cx)
                         /\ g.rej => g.runs = {}
@@ -366,16 +532,26 @@ TGateMono == Done => \A t2 \in Dels(tree) : \A l \in Limits(out.cx) :
 (* Behaviour                                                               *)
 (***************************************************************************)
 NoOut == [cx |-> Zero, gate |-> {}]
-Init == pc = "tree" /\ tree \in Trees /\ asg = {} /\ out = NoOut
-ChooseCosts == pc = "tree" /\ asg' \in Asgs(tree) /\ pc' = "costs" /\ UNCHANGED <<tree, out>>
+Init == pc = "tree" /\ tree \in Trees /\ asg = {} /\ out = NoOut /\ bnd = Binding
+ChooseCosts == pc = "tree" /\ asg' \in Asgs(tree) /\ pc' = "costs" /\ UNCHANGED <<tree, out, bnd>>
 Compute == /\ pc = "costs"
            /\ LET cx == Cx(asg, tree) IN out' = [cx |-> cx, gate |-> Gate(cx, tree)]
-           /\ pc' = "done" /\ UNCHANGED <<tree, asg>>
+           /\ pc' = "done" /\ UNCHANGED <<tree, asg, bnd>>
 Next == ChooseCosts \/ Compute
 Spec == Init /\ [][Next]_vars
 
+\* The Complexity(type, field) table under the assignment a: one row per GraphQL field of every object
+\* type x child in {0, 4} x argument x absent / set (when the field takes it).
+TableRows(a) ==
+  UNION { UNION { { [type |-> t, field |-> f, child |-> ch, x |-> ax,
+                     ok |-> GenComplexity(a, t, f, ch, ArgOfClass(ax)).ok,
+                     v  |-> GenComplexity(a, t, f, ch, ArgOfClass(ax)).v]
+                    : ch \in TableChildren, ax \in (IF Schema[t].fields[f].arg THEN {"none", "set"} ELSE {"none"}) }
+                  : f \in DOMAIN Schema[t].fields }
+          : t \in ObjTypes }
 EmitEdge == (Emit /\ pc' = "done") =>
-  PrintT(ToJson([sels |-> tree, costs |-> asg', cx |-> out'.cx, gate |-> out'.gate]))
-EmitSchema == PrintT(ToJson([schema |-> Schema, argval |-> ArgVal, max |-> MAXN]))
+  PrintT(ToJson([sels |-> tree, costs |-> asg', cx |-> out'.cx, gate |-> out'.gate,
+                 table |-> IF Corpus = "bind" /\ tree = NoOp THEN TableRows(asg') ELSE {}]))
+EmitSchema == PrintT(ToJson([schema |-> Schema, argval |-> ArgVal, max |-> MAXN, binding |-> Binding]))
 ASSUME Emit => EmitSchema
 =============================================================================
